@@ -31,6 +31,7 @@ var Properties = map[string][]string{
 	"C02": {"C02.a"},
 	"C03": {"C03.a"},
 	"C05": {"C02.a", "C05.b", "C05.c", "C01.d"},
+	"C07": {"C07"},
 	"C06": {"C06.a", "C05.c", "C06.c", "C06.e"},
 	"C08": {"C08.a", "C08.b"},
 	"C11": {"C11.c", "C01.d"},
